@@ -231,4 +231,73 @@ def recordRun (host : Bool) (e : Env) (fs : Ents) (d : String) (filled : Ents) :
   | (_, none, _) => (fs1.erase d, true)
   | (_, some l, _) => (fs1.set d l, true)
 
+/-! ## Entry points: every command that creates or removes a data directory
+
+`translators/c20_dircallers.py` walks cmds/*.c and lists, for every `command_*` function from which
+`create_directory`, `remove_directory` or `mkstemp` can be reached, the directory events of every
+execution path (`Uft/Gen/DirCallers.lean`, regenerated on every run).  The path names are the
+source text of the argument (a buffer that is written again gets a new version): two different
+texts may well name the same directory, which is why the semantics below takes an arbitrary
+interpretation `ρ` of the texts. -/
+
+/-- a directory event of an execution path -/
+inductive DEv where
+  /-- `mkstemp(p)` succeeded and the file was unlinked again: the name does not exist -/
+  | fresh (p : String)
+  /-- `create_directory(p)` returned 0 -/
+  | createOk (p : String)
+  /-- `create_directory(p)` returned -1 -/
+  | createFail (p : String)
+  /-- `remove_directory(p)` -/
+  | remove (p : String)
+  deriving DecidableEq, Repr
+
+structure EntryPoint where
+  name : String
+  traces : List (List DEv)
+
+/-- the guard: `remove p` only for a path this run owns — made by a successful
+    `create_directory(p)`, or known not to exist (`fresh p`).  Ownership is never lost: a failed
+    `create_directory` of an owned path leaves it owned (it is ours or absent), a removed one is gone. -/
+def guardedFrom (owned : List String) : List DEv → Bool
+  | [] => true
+  | .fresh p :: r => guardedFrom (p :: owned) r
+  | .createOk p :: r => guardedFrom (p :: owned) r
+  | .createFail _ :: r => guardedFrom owned r
+  | .remove p :: r => owned.contains p && guardedFrom owned r
+
+def guarded (tr : List DEv) : Bool := guardedFrom [] tr
+
+def EntryPoint.guards (ep : EntryPoint) : Bool := ep.traces.all guarded
+
+/-- `remove_directory(name)` on the parent directory `fs`: `opendir` fails on anything but a
+    directory (nothing happens); otherwise `rmNode` -/
+def removeDir (e : Env) (fs : Ents) (n : String) : Env × Ents :=
+  match fs.get n with
+  | some (.dir es) =>
+    match rmNode e (.dir es) with
+    | (e2, none, _) => (e2, fs.erase n)
+    | (e2, some l, _) => (e2, fs.set n l)
+  | _ => (e, fs)
+
+/-- one event on the file system; `none`: the event cannot happen in this state (`fresh` of a name
+    that exists, `createOk` where create_directory fails, …).  After a successful
+    `create_directory` the run fills the directory with whatever it records (`filled`). -/
+def stepEv (ρ : String → String) (filled : String → Ents) (st : Env × Ents) : DEv → Option (Env × Ents)
+  | .fresh p => if (st.2.get (ρ p)).isNone then some st else none
+  | .createOk p =>
+    let r := createDirectory st.1 st.2 (ρ p) (ρ p ++ ".old")
+    if r.ok then some (r.env, r.fs.set (ρ p) (.dir (filled p))) else none
+  | .createFail p =>
+    let r := createDirectory st.1 st.2 (ρ p) (ρ p ++ ".old")
+    if r.ok then none else some (r.env, r.fs)
+  | .remove p => some (removeDir st.1 st.2 (ρ p))
+
+def execTrace (ρ : String → String) (filled : String → Ents) : Env × Ents → List DEv → Option (Env × Ents)
+  | st, [] => some st
+  | st, ev :: r =>
+    match stepEv ρ filled st ev with
+    | none => none
+    | some st2 => execTrace ρ filled st2 r
+
 end Uft.DirGuard
